@@ -2,7 +2,7 @@
 Driver for C11: one workspace + target list per line, one result per line.
 Strings are lower-case hex (`-` = empty string).
 
-  run dirs=<L> bf=<files> src=<L> t=<L> [t2=<L>] [t3=<L>] [wd=<s>] [ar=1]     (wd: work dir of the builder under <root>/src;     (ar: Config.AlwaysRebuild on the implementation side; the model has no cache)
+  run dirs=<L> bf=<files> src=<L> t=<L> [bad=<L>] [t2=<L>] [t3=<L>] [wd=<s>] [ar=1]     (wd: work dir of the builder under <root>/src;     (ar: Config.AlwaysRebuild on the implementation side; the model has no cache)
 
   <L>      comma separated strings, `.` = empty list
   <files>  `;` separated `<dir>:<decls>`, `.` = no build file at all
@@ -15,6 +15,7 @@ Strings are lower-case hex (`-` = empty string).
 
   -> failed <classes>    sorted set of {noName, syntax, empty, dup, cycle, dangling}
    | built <L>           BUILD lines in order
+   | execfailed ran=<L>  a rule of bad=<L> failed while executing: BUILD lines up to and including it
    | outOfFuel           the loader does not terminate
 -/
 import PubModel.C11.Glue
@@ -86,11 +87,15 @@ def step (_ : Unit) (line : String) : Unit × String :=
         let wd := ((kv rest "wd").bind parseS).getD []
         -- further Build calls on the same Builder (t2, t3): every call is judged on its own
         let calls := ts :: ([kv rest "t2", kv rest "t3"].filterMap (fun o => o.bind (parseList ",")))
+        let bad := ((kv rest "bad").bind (parseList ",")).getD []
         let one (ts : List Str) : String :=
           match run genCfg ⟨dirs, files, srcs⟩ fuelDefault (resolveTargets wd ts) with
           | .outOfFuel => "outOfFuel"
           | .failed errs => "failed " ++ classes errs
-          | .built log _ => "built " ++ showL log
+          | .built log _ =>
+            match truncateAtFailure bad log with
+            | some ran => "execfailed ran=" ++ showL ran
+            | none => "built " ++ showL log
         let outs := calls.map one
         if outs.contains "outOfFuel" then "outOfFuel" else " ;; ".intercalate outs
       | _, _, _, _ => "bad-op"
